@@ -24,6 +24,11 @@ def run(chk, scratch):
     chk.add_tlc("Hasher without reset-on-failure (must violate DigestIsContent)", r)
     if r.violated != "DigestIsContent":
         raise vlib.Inconclusive("sensitivity self-test failed: Hasher_noreset.cfg did not violate DigestIsContent")
+    r = vlib.run_tlc(scratch, [SPEC], "Hasher", "Hasher_async.cfg", workers=4, timeout=300, fast=True)
+    vlib.tlc_must_pass(r, "Hasher_async")
+    chk.add_tlc("Hasher with a copy that outlives a cancelled call (must violate DigestIsContent)", r)
+    if r.violated != "DigestIsContent":
+        raise vlib.Inconclusive("sensitivity self-test failed: Hasher_async.cfg did not violate DigestIsContent")
     behs = common.emit_behaviours(chk, scratch, SPEC, "Hasher", "Hasher_emit.cfg", "emit exhaustive (<=2 chunks, 3 calcs)",
                                   workers=4, limit=(None if thorough else 1500), seed=chk.seed)
     behs += common.emit_behaviours(chk, scratch, SPEC, "Hasher", "Hasher_emit_sim.cfg", "emit simulated (<=4 chunks, 6 calcs)",
@@ -31,7 +36,7 @@ def run(chk, scratch):
                                    limit=(20000 if thorough else 800))
     chk.sample({"behaviour": behs[0]})
     chk.sample({"behaviour": behs[-1]})
-    common.replay(chk, vh, scratch, "c20", behs)
+    common.replay(chk, vh, scratch, "c20", behs, crash_pkgs=("hashing", "safeio"))
     tr, _ = common.record(vh, scratch, "c20", "trace.ndjson", chk.seed, chk.tier, n=(400 if thorough else 30))
     common.validate(chk, scratch, SPEC, "HasherTrace", "HasherTrace.cfg", tr, "recorded hasher histories", sig_of=sig_of,
                     count_traces=lambda evs: sum(1 for e in evs if e.get("op") == "New"))
